@@ -9,7 +9,7 @@ PROPERTY = 'C10'
 FUNCTIONS = ['zmethod.knees', 'zmethod.getPoints', 'zmethod.map_index', 'uts.gradient.csd', 'uts.zscore.zscore_array (inline layer)']
 STUBS = ['z[i] in [-7/2, 7/2] free real per point replaces uts.zscore.zscore_array(x, csd(x, y)) (over-approximates every realisable z-score vector inside that range)']
 BOUNDS = dict(quick='L1: n = 4 points (x = 0..3), interior heights symbolic in [0,1] with y_0 = 1, y_3 = 0 (thorough: all four symbolic), z free in [0,7/2] (thorough: [-7/2,7/2]), (dx,dy,dz) in {(1/4,1/5,3/2), (1/2,1/2,3/2)}; '
-                    'L0: the real csd / z-score code on 3 miss-ratio curves of 5-6 points (one with x = 0..n-1) with one symbolic height',
+                    'L0: the real csd / z-score code on 5 curves of 4-6 points (one with x = 0..n-1, two non-monotone) with one symbolic height',
               thorough='L1: n <= 5, dx in {1/20,1/4,1/2,1}, dy in {1/20,1/5,1/2}, dz in {1/2,1,3/2}, x_max / y_range overrides; L0: 4 curves, every position')
 ASSUMPTIONS = ['exact real arithmetic (T1)', 'x strictly increasing non-negative integers, y in [0,1] (miss-ratio-like curve)',
                'dx, dy, dz range over the listed concrete values only (symbolic step sizes are outside the claim)', 'L1: |z| <= 7/2']
@@ -21,6 +21,7 @@ MRC = [
     [[0, '1'], [2, '0.5'], [3, '0.5'], [4, '0.5'], [7, '0.2'], [9, '0']],
     [[0, '0.8'], [1, '0.8'], [2, '0.3'], [3, '0.7'], [4, '0.1']],
     [[0, '1'], [1, '0.55'], [2, '0.5'], [3, '0.2'], [4, '0.18'], [5, '0.02']],     # x = 0..n-1: x_max defaults to the point count, not the last x
+    [[0, '0.3'], [1, '0.2'], [2, '0.6'], [3, '0.5']],                              # bump: low, lower, high, slightly lower (final height sweep)
 ]
 
 
@@ -58,9 +59,11 @@ def cases(tier, seed):
     l1, out = out, []
     for pos in (([1], [3]) if q else [[i] for i in range(6)]):
         out.append(dict(layer='L0', nra_at_decide=True, curve=4, pos=pos, dx='1/2', dy='1/5', dz='1', x_max=None, y_range=None))
-    for ci in ((0, 1) if q else (0, 1, 2, 3)):
+    for pos in ([[3], [0]] if q else [[0], [1], [2], [3]]):
+        out.append(dict(layer='L0', nra_at_decide=True, curve=5, pos=pos, dx='1/4', dy='1/5', dz='1', x_max=None, y_range=None))
+    for ci in ((0, 1, 3) if q else (0, 1, 2, 3)):
         m = len(MRC[ci])
-        for pos in (([2], [m - 2]) if q else [[i] for i in range(m)]):
+        for pos in ((([2], [m - 2]) if ci != 3 else ([1], [3])) if q else [[i] for i in range(m)]):
             for dx, dy, dz in ((('1/4', '1/5', '1'),) if q else (('1/4', '1/5', '1'), ('1/20', '1/20', '1/2'), ('1/2', '1/2', '3/2'))):
                 out.append(dict(layer='L0', nra_at_decide=True, curve=ci, pos=pos, dx=dx, dy=dy, dz=dz, x_max=None, y_range=None))
     return out + l1
